@@ -101,7 +101,7 @@ def run(tier):
         raise ToolError("c09 e2e: %d of %d" % (len(eo), len(scen)))
     erows = []
     for sc, o in zip(scen, eo):
-        o.update({k: sc[k] for k in ("kind", "cl", "serial", "page", "ts", "tracing", "values", "btype", "evict", "comp", "ps", "lvl")})
+        o.update({k: sc[k] for k in ("kind", "cl", "serial", "page", "ts", "tracing", "values", "btype", "evict", "comp", "ps", "lvl", "bunprep")})
         o["text0"] = [ord(ch) for ch in "SELECT c0 FROM ks.t"]
         erows.append(o)
     ej = os.path.join(wd, "e2e.j.ndjson")
@@ -113,7 +113,7 @@ def run(tier):
     for b in ebad[:8]:
         x = erows[b]
         v.violation("session level: %s%s%s with (said on the %s) consistency %s serial %s page %s paging state %s timestamp %s tracing %s values %s: the node received %s (%s)" % (
-            x["kind"], " (node answers UNPREPARED first)" if x["evict"] else "", " (session asked for compression, node offers none)" if x["comp"] else "",
+            x["kind"], " (node answers UNPREPARED first)" if x["evict"] else "", (" (session asked for compression, node offers none)" if x["comp"] else "") + (" (middle statement given as text with values)" if x.get("bunprep") else ""),
             ["statement", "statement's execution profile", "session's default profile"][x.get("lvl", 0)],
             x["cl"], x["serial"], x["page"], x["ps"], x["ts"], x["tracing"], json.dumps(x["values"])[:120],
             [(f["opcode"], f["flags"], f["body"][:80]) for f in x["frames"]], x["err"][:80]), [x])
